@@ -2116,6 +2116,42 @@ def on_every_path(g, stmt_id):
     return pos[0] in dom.get(g.entry, ()) or pos[0] == g.entry
 
 
+def swapped_out_local(tu, f, g, F, al, e, loop):
+    """is e a local container of the list's type that starts empty and received the whole observer list through exactly one
+    swap with it (local.swap(list) / list.swap(local) / std::swap(list, local)) executed on every path before the loop, with no
+    other use of the local outside the loop header?"""
+    vid = tu.ref_decl(e)
+    vd = tu.node(vid) if vid else None
+    if vd is None or vd.get('kind') != 'VarDecl' or tu.enclosing_fn(vd) is None:
+        return False
+    ini = init_exprs(tu, vd)
+    if ini and not (tu.strip(ini[-1]).get('kind') == 'CXXConstructExpr' and not tu.kids(tu.strip(ini[-1]))):
+        return False
+    swaps = []
+    uses = 0
+    loop_ids = {y.get('id') for y in tu.walk(loop)}
+    for x in tu.walk(tu.body(f)):
+        if x.get('kind') == 'DeclRefExpr' and x.get('referencedDecl', {}).get('id') == vid and x.get('id') not in loop_ids:
+            uses += 1
+        if x.get('kind') == 'CXXMemberCallExpr' and tu.sd(x).get('q', '').split('::')[-1] == 'swap':
+            s_, obj, a = tu.call_parts(x)
+            if obj is not None and len(a) == 1 and ((tu.ref_decl(obj) == vid and list_expr(tu, a[0], F, al)) or
+                                                    (list_expr(tu, obj, F, al) and tu.ref_decl(a[0]) == vid)):
+                swaps.append(x)
+        if x.get('kind') == 'CallExpr' and tu.sd(x).get('q') == 'std::swap':
+            s_, o_, a = tu.call_parts(x)
+            if len(a) == 2 and ((tu.ref_decl(a[0]) == vid and list_expr(tu, a[1], F, al)) or (tu.ref_decl(a[1]) == vid and list_expr(tu, a[0], F, al))):
+                swaps.append(x)
+    if len(swaps) != 1 or uses != 1 or not on_every_path(g, swaps[0]['id']):
+        return False
+    lp = None
+    for b, i, y in g.stmts():
+        if y.get('id') in loop_ids and lp is None:
+            lp = (b.id, i)
+    sp = g.where(swaps[0]['id'])
+    return lp is not None and sp is not None and g.dominates(sp, lp)
+
+
 def range_for_orphans(tu, f, g, loop, F, al):
     ks = tu.kids(loop)
     # children of CXXForRangeStmt: [init] range-decl begin-decl end-decl cond inc loopvar-decl body
@@ -2124,6 +2160,8 @@ def range_for_orphans(tu, f, g, loop, F, al):
         if x.get('kind') == 'VarDecl' and x.get('name', '').startswith('__range') and tu.kids(x):
             rng = x
             break
+    if rng is not None and not list_expr(tu, tu.kids(rng)[-1], F, al) and swapped_out_local(tu, f, g, F, al, tu.kids(rng)[-1], loop):
+        al = set(al) | {tu.ref_decl(tu.kids(rng)[-1])}      # a local that took over the whole list by swap: walking it = walking the list
     if rng is None or not list_expr(tu, tu.kids(rng)[-1], F, al):
         return ('undecided', 'the range-for does not iterate over the observer list of *this')
     loopvar = None
@@ -3018,12 +3056,28 @@ def value_ops(t, f, VALUE, depth=0):
             for p, a in zip(callee['params'], args):
                 if base_type(p['ct']) == TS:
                     w = ts_arg(a)
+                    if w is None:
+                        # a temporary TimeStamp: a default-constructed one carries a fresh stamp (*this = TimeStamp())
+                        a0 = t.strip(a, casts=True)
+                        if a0 is not None and a0.get('kind') in ('CXXTemporaryObjectExpr', 'CXXConstructExpr', 'CXXFunctionalCastExpr'):
+                            while a0 is not None and a0.get('kind') == 'CXXFunctionalCastExpr' and t.kids(a0):
+                                a0 = t.strip(t.kids(a0)[-1], casts=True)
+                            dc = t.callee_fn(a0) if a0 is not None and a0.get('kind') in ('CXXTemporaryObjectExpr', 'CXXConstructExpr') else None
+                            if a0 is not None and not t.kids(a0) and t.sd(a0).get('rec') == TS:
+                                if dc is not None and t.cfg(dc) is not None:
+                                    fin_, n_, u_ = value_ops(t, dc, VALUE, depth + 1)
+                                    if fin_ and not u_ and all(x_ == 'fresh' for x_ in fin_):
+                                        return 'fresh'
+                                else:
+                                    und.append('temporary TimeStamp at %s whose default constructor has no body in this unit' % t.loc(a0))
+                                    return 'other'
                     return 'src' if w == 'src' else ('cur',) if w == 'old' else 'other'
             return 'other'
         return v
 
     finals = []
     notes = []
+    fresh_default = []
     for path in cfg_paths(g):
         curs = ['old']            # possible contents (several when a followed callee has several paths)
         env = {}
